@@ -154,7 +154,11 @@ def evaluate(ctx, cases, fresh_schema=False, with_spec=False):
             else:
                 if root is None:
                     root = _scratch_root()
-                d = os.path.join(root, "c%d" % i)
+                # (every fourth scratch directory has URL-special characters in its name: a path is not a URL, so
+                #  '?', '#', '%' and a space in it must be harmless however the resource is named)
+                uses_path_placeholder = any("@ZCVROOT@" in l for ls in [c.lines] + list(c.files.values()) for l in ls)
+                plain_dir = i % 4 or uses_path_placeholder or c.meta.get("entry") == "fileobj-pathurl"   # (a path used AS a URL must be URL-neutral)
+                d = os.path.join(root, ("c%d" if plain_dir else "c%d q?x#y%%41 z") % i)
                 main_rel = c.meta.get("main", "main.conf")
                 root_url = "file://" + urllib.request.pathname2url(d) + "/"
 
